@@ -132,7 +132,8 @@ CLAIMED = {
              'type and |x| <= f/4 (every non-overflowing I9F23 operand; 8 of ~11.8 for I32F32; 22 of ~27 for I40F88). (pow) pow_holds_small: the pow clause for |y ln x| <= 7/2 and |y| <= 2^f/32 (every '
              'exponent of types with intBits + 4 <= f); pow_clause_false: the pow clause fails independently of exp at pow::<I41F23>(1+2^-23, -2^26) = 1.0 (true value < 1/1000) = NEW finding D16 '
              '(ln\'s absolute 8-ulp error times |y|; id D16-pow-ln-abs, predicate 8|y| ulp > 1), confirmed on the implementation and replayed on every run. SfxProps/C15.lean: C15_partial proves the whole powi '
-             'clause and the conventions 0^y, x^0, x^1. NOT proved: the thin bands f/4 < |x| < D10 threshold and 7/2 < |y ln x|; any oracle-judged failure outside the findings\' regions is a VIOLATION.',
+             'clause and the conventions 0^y, x^0, x^1. NOT proved: the thin bands f/4 < |x| < D10 threshold and 7/2 < |y ln x|; any oracle-judged failure outside the findings\' regions is a VIOLATION. '
+             'SfxProps/C15Pairs.lean: all of this for DIFFERENT source and destination types (exp/pow/powi::<S,D> proved equal as computations to the same-type functions on the widened operands), and the powi clause over the reals word for word (powi_real, pairs_partial).',
         design_ref='7/C15', note=COMMON_NOTE + ' The bands between the proved regions and the findings\' regions rest on sampled oracle judgements.',
         technique='Lean 4 proof (partial; formal counterexamples for both findings) + differential correspondence + mpmath search oracle + known-findings file'),
     'C16': dict(
